@@ -814,6 +814,21 @@ struct PipeWorld : World {
 			// a fixed area has no room for a decoder that must expand what it reads (zero-pair framings): "needs space" is then an honest end
 			if (last == E_MissingBuffer && R.framing >= 2 && R.received < R.completed.size()) st.hit("probe:memory_reader_needs_space");
 			else if (R.received != R.completed.size()) fail("stall", "M %s: %zu messages were completed in the memory area (%zu finished bytes), %zu were read back", ref::framing_name(R.framing), R.completed.size(), finished, R.received);
+			else if (finished && (p.seed & 1)) {
+				// the same reader stream is given a second source (as io::stream::open does with its stream): it reads that from its first byte
+				Block in2(finished, 0); memcpy(in2.p, area.p, finished);
+				struct iovec iv2; iv2.iov_base = in2.p; iv2.iov_len = finished;
+				rs._rd.base = 0; rs._rd.max = rs._rd.len = 0;
+				{ Sut s; rc = mpt_stream_memory(&rs, &iv2, 0); }
+				if (rc < 0) fail("setup", "mpt_stream_memory(read) on a used stream failed %d", rc);
+				R.received = 0;
+				for (int i = 0; i < 64; ++i) { size_t before = R.received; int d; { Sut s; SUT_GUARD_ABORT(d = mpt_stream_dispatch(&rs, on_message, &rx)); } check_pending(); log.ev("R_DISPATCH (second source) -> %d", d); last = d; if (d < 0 || (R.received == before && !(d & 0x10000))) break; }
+				check_pending();
+				if (last == E_MissingBuffer && R.framing >= 2 && R.received < R.completed.size()) st.hit("probe:memory_reader_needs_space");
+				else if (R.received != R.completed.size()) fail("stall", "M %s: a reader stream given a second source of the same %zu bytes read %zu of its %zu messages", ref::framing_name(R.framing), finished, R.received, R.completed.size());
+				st.hit("probe:memory_reader_second_source");
+				rs._rd.base = 0; rs._rd.max = rs._rd.len = 0;
+			}
 			rs._rd.base = 0; rs._rd.max = rs._rd.len = 0;
 		}
 		log.ev("END completed=%zu received=%zu", R.completed.size(), R.received);
